@@ -79,6 +79,14 @@ def scenarios(tier):
         for v in (gens[0], gens[2]):
             cfg = HE.gen_scenario(v)
             S.append((v["name"] + "-k2", cfg, "dev", dict(H=v["ep_len"] + 3, k=2, core=True)))
+    # sessions opened in the first slots (remote on the gateway, remote on a server, local through the terminal), then idle past
+    # the 30-step session time-out, with one deviation anywhere
+    for v in ((gens[0], gens[2]) if tier == "thorough" else (gens[0],)):
+        vi = dict(v, ep_len=40)
+        S.append((v["name"] + "-idle", HE.gen_scenario(vi), "dev", dict(
+            H=36, k=1, core=tier != "thorough", variant=vi,
+            script_hints=[("node-session-remote-login", "'192.168.10.1'"), ("node-session-remote-login", "'pw1'"),
+                          ("node-send-local-command", "'lc'")])))
     S.append(("data_manipulation", HE.SHIPPED["data_manipulation"], "dev", dict(H=24 if tier == "thorough" else 6, k=1, reset_seed=None)))
     S.append(("uc7", HE.SHIPPED["uc7"], "dev", dict(H=12 if tier == "thorough" else 2, k=1, reset_seed=None)))
     S.append(("uc7_tap003", HE.SHIPPED["uc7_tap003"], "dev", dict(H=12 if tier == "thorough" else 2, k=1, reset_seed=None)))
@@ -116,6 +124,16 @@ def make_adapter(name, cfg, p, oracles):
                  init_reset_seed=p.get("reset_seed", 3), alphabet=pick(cfg, p["hints"]) if p.get("hints") else None,
                  dev_alphabet=core_alphabet(cfg, p.get("core_names")) if p.get("core") else None,
                  extra_params={"scenario_name": name, "p": {k: v for k, v in p.items()}})
+    if p.get("script_hints"):
+        # the default script opens sessions in its first slots and then idles past their time-out
+        idx = pick(cfg, p["script_hints"])
+
+        def default_event(s, t, ad=ad, idx=idx):
+            if s.steps >= s.max_len + 1:
+                return ("reset", None)
+            return ("a", idx[t]) if t < len(idx) else ("a", ad.default_action)
+
+        ad.default_event = default_event
     if p.get("multi_reset"):
         # episode-scheduled scenarios: the default script resets after every second step so that several episodes of
         # the schedule are crossed inside a short horizon
@@ -128,7 +146,9 @@ def make_adapter(name, cfg, p, oracles):
     return ad
 
 
-def _cfg_for(name):
+def _cfg_for(name, p=None):
+    if p and p.get("variant"):
+        return HE.gen_scenario(p["variant"])
     if name.endswith("-long"):
         name = name[:-5]
     if name.endswith("-fs2"):
@@ -142,7 +162,7 @@ def _cfg_for(name):
 def replay(doc, oracles=None):
     p = doc["params"]
     name = p["scenario_name"]
-    ad = make_adapter(name, _cfg_for(name), p["p"], oracles or [EE.StepContractOracle()])
+    ad = make_adapter(name, _cfg_for(name, p["p"]), p["p"], oracles or [EE.StepContractOracle()])
     s = ad.build()
     out = list(ad.check_initial(s))
     for ev in doc["history"]:
